@@ -725,3 +725,10 @@ Proof.
     destruct Hy as [k [<- _]]. apply limb_range.
   - rewrite Hval. exact Hr.
 Qed.
+
+(* ---- register update through regtmp (masked like a wire copy) ------------------------------ *)
+Theorem c_regcopy_correct wrin rin wrout :
+  limbs_ok wrin rin -> 0 <= wrout <= wrin ->
+  limbs_ok wrout (c_regcopy wrin rin wrout)
+  /\ limbs_to_Z (c_regcopy wrin rin wrout) = limbs_to_Z rin mod 2 ^ wrout.
+Proof. exact (c_wire_correct wrin rin wrout). Qed.
